@@ -80,6 +80,18 @@ class TTuple(T):
         return "Tuple(%s)" % ",".join(map(repr, self.elems))
 
 
+class TRecord(T):
+    """dict literal with constant string keys (e.g. a Gantt chart row)"""
+    kind = "Record"
+
+    def __init__(self, names, elems):
+        self.names = tuple(names)
+        self.elems = tuple(elems)
+
+    def __repr__(self):
+        return "Record(%s)" % ",".join("%s:%r" % (n, t) for n, t in zip(self.names, self.elems))
+
+
 class TDict(T):
     kind = "Dict"
 
@@ -116,6 +128,13 @@ def parse_type(s):
     for name, ctor in (("List", TList), ("Set", TSet), ("Opt", TOpt)):
         if s.startswith(name + "[") and s.endswith("]"):
             return ctor(parse_type(s[len(name) + 1:-1]))
+    if s.startswith("Record[") and s.endswith("]"):
+        names, ts = [], []
+        for part in s[7:-1].split(","):
+            n, t = part.split(":")
+            names.append(n.strip())
+            ts.append(parse_type(t))
+        return TRecord(names, ts)
     if s.startswith("Tuple[") or s.startswith("Dict["):
         name = s[:s.index("[")]
         inner = s[len(name) + 1:-1]
@@ -197,6 +216,10 @@ class Sorts:
             s = z3.ArraySort(self.sort(t.elem), z3.BoolSort())
         elif k == "Tuple":
             d = z3.Datatype("T_%s" % "_".join(_mangle(e) for e in t.elems))
+            d.declare("mk", *[("f%d" % i, self.sort(e)) for i, e in enumerate(t.elems)])
+            s = d.create()
+        elif k == "Record":
+            d = z3.Datatype("R_%s" % "_".join(_mangle(e) for e in t.elems) + "_" + _mangle_text("|".join(t.names)))
             d.declare("mk", *[("f%d" % i, self.sort(e)) for i, e in enumerate(t.elems)])
             s = d.create()
         elif k == "Dict":
